@@ -81,6 +81,9 @@ class AddonPersistence(Addon, metaclass=abc.ABCMeta):
         # during the finalization the persistent flag gets disabled if there is no storage
         assert persistent_dict is not None, f"{self}: circuit not finalized"
         try:
+            if not self.is_initialized():
+                # e.g. the simulation was stopped before the block got initialized
+                raise EdzedCircuitError("not initialized, there is no state to be saved")
             persistent_dict[self.key] = self.get_state()
         except Exception as err:
             self.log_warning("Persistent data save error: %s", err)
